@@ -372,7 +372,7 @@ def count_definition(ct, rep, rule="count-definition"):
         g = lc.generators[0]
         var = norm(g.target)
         if ct.is_entries(g.iter) and not g.ifs and isinstance(lc.elt, ast.Call) and norm(lc.elt.func) in ("self.get_block", "self.__getitem__") \
-                and norm(lc.elt.args[0]) == f"{var}.type":
+                and len(lc.elt.args) == 1 and norm(lc.elt.args[0]) == f"{var}.type":
             okk = True
     if okk:
         rep.ok(rule, "Tdf.blocks maps get_block over ALL entries in table order", nontrivial=True)
